@@ -7,6 +7,9 @@ import (
 
 var checks = map[string]func(*Ctx){
 	"C14":    runC14,
+	"C02":    runC02,
+	"C12":    runC12,
+	"C13":    runC13,
 	"corpus": runCorpus,
 	"gen":    runGen,
 }
